@@ -210,28 +210,6 @@ MUTANTS = [
          old="                    z['y'][idx] = y\n                    z['n'] += 1", new="                    z['y'][idx if z['n'] == 0 or idx == 0 else idx - (z['y'][idx - 1] is None)] = y\n                    z['n'] += 1"),
     dict(id='C02-m3', prop='C02', file='mpserver/_server.py', desc='request ids minted from id(fut) again (D5 regression)',
          old="        uid = next(self._uid_counter)\n\n        with self._pipeline_notfull:", new="        uid = id(fut)\n\n        with self._pipeline_notfull:"),
-    dict(id='C02-m4', prop='C02', file='mpserver/_server.py', desc='gather thread delivers to an arbitrary ledger entry on KeyError',
-         old="""                except KeyError:
-                    # This should not happen, but see doc of `_enqueue`
-                    # `dict.pop` is atomic; see https://stackoverflow.com/a/17326099/6178706
-                    logger.warning(
-                        f'the Future object for uid `{uid}` is not found in the backlog ledger'
-                    )
-                    continue
-
-                if isinstance(y, RemoteException):
-                    y = y.exc
-                if not fut.cancelled():
-                    try:""",
-         new="""                except KeyError:
-                    if not pipeline:
-                        continue
-                    fut = pipeline.pop(next(iter(pipeline)))
-
-                if isinstance(y, RemoteException):
-                    y = y.exc
-                if not fut.cancelled():
-                    try:"""),
     dict(id='C02-m5', prop='C02', file='mpserver/_server.py', desc='D4 regression: put before ledger entry (sync server)',
          old="            pipeline[uid] = fut\n            self._input_buffer.put((uid, x))\n\n        fut.data['t1'] = perf_counter()\n        return fut",
          new="            self._input_buffer.put((uid, x))\n            pipeline[uid] = fut\n\n        fut.data['t1'] = perf_counter()\n        return fut"),
